@@ -124,6 +124,7 @@ func genHist(c *core.Ctx) (HistCfg, HistWL) {
 		cfg.A = model.GenIndexCfg(g)
 		cfg.B = model.GenIndexCfg(g)
 		cfg.B.InMem = g.Intn(2) == 0
+		cfg.A.SegVer, cfg.B.SegVer = 0, 0 // segment formats before zap v17 do not know nested documents
 	}
 	if c.Quick && nops > 40 {
 		nops = 40
@@ -326,6 +327,31 @@ func runQuery(idx bleve.Index, q qeval.Q, size int, score string, locs, explain 
 	return hs, nil
 }
 
+// walkAfter pages through the hits of q in _id order with SearchAfter, pageSize hits at a time.
+func walkAfter(idx bleve.Index, q qeval.Q, pageSize int) (ids []string, totals []uint64, err error) {
+	var after []string
+	for page := 0; page < 200; page++ {
+		req := bleve.NewSearchRequestOptions(q.Bleve(), pageSize, 0, false)
+		req.SortBy([]string{"_id"})
+		if after != nil {
+			req.SetSearchAfter(after)
+		}
+		res, err := idx.Search(req)
+		if err != nil {
+			return ids, totals, err
+		}
+		totals = append(totals, res.Total)
+		if len(res.Hits) == 0 {
+			break
+		}
+		for _, h := range res.Hits {
+			ids = append(ids, h.ID)
+		}
+		after = append([]string(nil), res.Hits[len(res.Hits)-1].Sort...)
+	}
+	return ids, totals, nil
+}
+
 // checkQuery applies the three oracle layers of C02 to one query on one instance.
 func (h *histClient) checkQuery(q qeval.Q, prop string) {
 	cx := &qeval.Ctx{}
@@ -387,6 +413,25 @@ func (h *histClient) checkQuery(q qeval.Q, prop string) {
 			again0, _ := runQuery(h.idx, q, size, vars[0].score, vars[0].locs, vars[0].explain)
 			againV, _ := runQuery(h.idx, q, size, v.score, v.locs, v.explain)
 			h.c.ViolateProp(prop, "answer-depends-on-options", sig, h.s.Steps, "%s (%s/%s): %s\n  default options: %v\n  score=%q locs=%v explain=%v: %v\n  documented meaning: %v\n  repeated: default options: %v; variant: %v", h.name, h.cfg.Engine, h.cfg.KV, q, first, v.score, v.locs, v.explain, got, ws, again0, againV)
+		}
+	}
+	// the same hits, once each, with the same Total on every page, when they are fetched two at a time with
+	// SearchAfter in _id order (key-set paging goes through another collector constructor than From/Size)
+	if len(first.ids) > 0 && !(h.hc.Nested && q.NestedShape() != "") {
+		ids, totals, err := walkAfter(h.idx, q, 2)
+		h.checks++
+		sig := map[string]string{"engine": h.cfg.Engine}
+		if h.cfg.TFRCache1 > 0 {
+			sig["tfr_cache"] = "on"
+		}
+		bad := err != nil || fmt.Sprint(ids) != fmt.Sprint(first.ids)
+		for _, t := range totals {
+			if t != first.total {
+				bad = true
+			}
+		}
+		if bad {
+			h.c.ViolateProp(prop, "paging-differs", sig, h.s.Steps, "%s (%s/%s): %s\n  one page: %v\n  SearchAfter walk, 2 per page, sort _id: ids=%v totals=%v err=%v", h.name, h.cfg.Engine, h.cfg.KV, q, first, ids, totals, err)
 		}
 	}
 }
